@@ -24,7 +24,7 @@ DATA = "/verif/build/C01-data"
 
 def build(ctx):
     return {"h01": ctx.build("h01", ["h01.cpp"], opt="-O2"),
-            "h01cap": ctx.build("h01cap", ["h01.cpp"], opt="-O2", flags=["-DOSMIUM_VERIF_DYNAMIC_BUFFER_SIZE"])}
+            "h01cap": ctx.build("h01cap", ["h01.cpp"], opt="-O2", flags=["-DOSMIUM_VERIF_DYNAMIC_BUFFER_SIZE", "-DOSMIUM_VERIF_INPUT_BUFFER_SIZE=61"])}
 
 
 def _sweep_stale():
